@@ -35,7 +35,7 @@ def spl_contract_cases(seed, count, max_side, tag):
                     sp["kform"] = rng.choice(["col", "expr", "flip_own"])
                 if rng.random() < 0.5:
                     # a history of slope-exponent requests on one separate eroder, with repeats
-                    vals = [rng.choice(["1", "1.5", "2", "0.5"]) for _ in range(rng.randint(2, 4))]
+                    vals = [rng.choice(["1", "1.5", "2", "0.5", "1.00000001", "0.99999999", "1.000000000001"]) for _ in range(rng.randint(2, 4))]
                     sp["probe"] = [v for v in vals for _ in range(rng.choice([1, 1, 2, 3]))]
                 steps.append(sp)
             # one eroder object serves several steps while the graph changes under it (mask, base
@@ -163,6 +163,8 @@ def spl_exact_cases(seed, count, tag):
                       expect=hp, f=f, ncode=ncode, setters=1 if (tol == "1e-6" and rng.random() < 0.5) else 0)
             if rng.random() < 0.4:
                 sp["kform"] = rng.choice(["col", "expr", "flip_own"])
+            if ncode == 2 and tol == "1e-6":
+                sp["near"] = 1      # the same case with the exponent 1 + 2^-27 on a second eroder
             steps.append(sp)
         # scalar erodibility when it happens to be uniform
         steps.append(dict(op="drop", g=0))
